@@ -138,6 +138,9 @@ def run(ctx):
         # perturbations
         ps = perturb.perturbations(sp, rnd, gtirb)
         rnd.shuffle(ps)
+        # differences in the containment tree alone are few among hundreds
+        # of attribute edits: try them first
+        ps.sort(key=lambda lt: not lt[0].startswith("tree:"))
         done = 0
         for label, thunk in ps:
             if done >= ctx.params.get("perturbations_per_case", 40):
@@ -159,6 +162,8 @@ def run(ctx):
             ctx.count("cases")
             ctx.count("perturbed_pairs")
             ctx.seen("perturbation_labels", label)
+            if label.startswith("tree:"):
+                ctx.count("perturbation:" + label)
             ctx.seen("nontrivial", (na_spec, label, n2))
             if expected:
                 ctx.count("expected_true_despite_change")
